@@ -145,6 +145,29 @@ func (x *Exec) fail(kind, format string, a ...any) {
 	x.mu.Unlock()
 }
 
+// Fatal reports what the Go runtime would treat as an unrecoverable fatal error
+// (unlock of an unlocked mutex): under an execution it is recorded as the
+// execution's failure - a recover() in the code under test, or in package fmt
+// around a String method, must not hide it - and the goroutine panics; without an
+// execution the real fatal error is raised.
+func Fatal(msg string) {
+	if x := cur.Load(); x != nil {
+		x.fail("fatal", "fatal error: %s", msg)
+		panic("fatal error: " + msg)
+	}
+	switch {
+	case strings.Contains(msg, "RUnlock"):
+		var m sync.RWMutex
+		m.RUnlock()
+	case strings.Contains(msg, "RWMutex"):
+		var m sync.RWMutex
+		m.Unlock()
+	default:
+		var m sync.Mutex
+		m.Unlock()
+	}
+}
+
 // Now returns the virtual time since the start of the execution.
 func (x *Exec) Now() time.Duration { return time.Since(x.start) }
 
